@@ -717,7 +717,7 @@ func rulePQMap(c *Ctx, r *R) {
 	for _, fn := range c.funcsOfPkg("container/xheap") {
 		name := c.nameOf(fn)
 		k := 0
-		isCtor := rootFn(fn).Name() == "NewPriorityQueue"
+		isCtor := rootFn(fn).Name() == "NewPriorityQueue" || onlyReachedFrom(c, rootFn(fn), c.fn("container/xheap.NewPriorityQueue"), 0)
 		instrs(fn, func(b *ssa.BasicBlock, i int, in ssa.Instruction) {
 			switch x := in.(type) {
 			case *ssa.MapUpdate:
